@@ -88,6 +88,55 @@ def run_allowed(rep, rng, budget):
     return rows, found
 
 
+STRUCT_HEADER = ("From AM.Model Require Import Base Path Targets Deb822 Select Kind.\n"
+                 "From AM.Lemmas Require Import SelectGeneral.")
+STRUCT_DEFS = """
+Definition mkc n s ar := {| cname := n; csrc := s; carches := ar |}.
+(* Some b: the names satisfy names_okb and the structural predicate says b; None: outside the hypothesis *)
+Definition m_struct (x : list component * string * kind * string) : option bool :=
+  match x with (cfg, c, k, e) => if names_okb cfg c k then Some (allowed_struct cfg c k) else None end.
+Definition eq_struct (m o : option bool) : bool :=
+  match m, o with Some a, Some b => Bool.eqb a b | None, _ => true | Some _, None => false end.
+Definition count_ok (l : list (list component * string * kind * string)) : nat :=
+  List.length (filter (fun x => match m_struct x with Some _ => true | None => false end) l).
+"""
+NAME_POOL = ["main", "universe", "multiverse", "restricted", "contrib", "nonfree", "extra", "x", "ports", "backports2",
+             "amd64", "i386", "arm64", "armhf", "armel", "s390x", "riscv64", "ppc64el", "mips64el", "loong64", "sparc64",
+             "arm", "all", "allwinner", "source", "sources", "binary", "ackages", "ml", "z", "q7", "tar", "en", "ptbr", "64x64", "128"]
+KIND_COQ = {"Packages": "KPackages", "BinRelease": "KBinRelease", "Sources": "KSources", "SrcRelease": "KSrcRelease",
+            "Translation": "KTranslation", "ContentsSrc": "KContentsSrc", "Contents": "KContents", "Dep11": "KDep11",
+            "Icons": "KIcons", "Cnf": "KCnf"}
+
+
+def run_struct(rep, rng, n):
+    """The general theorem's conclusion against the real predicate: on random names, wherever the decidable
+    hypothesis names_okb holds (evaluated in Coq), allowed_struct must be what _metadata_file_allowed says."""
+    rows = []
+    for _ in range(n):
+        arch_pool = rng.sample(NAME_POOL, rng.randint(2, 4))
+        comp_names = rng.sample(NAME_POOL, rng.randint(1, 3))
+        cfg = {cn: (rng.random() < 0.5, rng.sample(arch_pool, rng.randint(0, min(2, len(arch_pool))))) for cn in comp_names}
+        c = rng.choice(comp_names + [rng.choice(NAME_POOL)])
+        kname = rng.choice(list(KIND_COQ))
+        arg = None
+        if kname in ("Packages", "BinRelease", "Contents", "Dep11", "Cnf"):
+            arg = rng.choice(arch_pool + ["all", rng.choice(NAME_POOL)])
+        elif kname in ("Translation", "Icons"):
+            arg = rng.choice(NAME_POOL)
+        e = rng.choice(["", ".xz", ".gz", ".bz2"])
+        name = c + "/" + S.render_kind((kname, arg)) + e
+        try:
+            got = S.impl_allowed(S.mk_repository(cfg), name)
+        except Exception:  # noqa: BLE001
+            continue
+        kc = f"({KIND_COQ[kname]} {cstr(arg)})" if arg is not None else KIND_COQ[kname]
+        cin = ctuple(S.c_cfg(cfg), cstr(c), kc, cstr(e))
+        rows.append(({"cfg": {k_: [v[0], v[1]] for k_, v in cfg.items()}, "comp": c, "kind": [kname, arg], "ext": e, "name": name},
+                     cin, f"(Some {cbool(got)})"))
+        rep.case(("struct", kname, got, len(cfg)), sample={"name": name, "allowed": got})
+    return rows
+
+
 def run_two_codenames(rep, rng, n):
     """One repository with two differently configured codenames whose Release files list the same names:
     what is selected for a codename must be what a repository with that codename alone selects."""
@@ -270,6 +319,16 @@ def run(rep: C.Report):
     C.tie_verdict(rep, "select", mism, errors, [c for c, _, _ in rows2], found or found2, header=header,
                   fn="m_select", coq_inputs=[a for _, a, _ in rows2])
     found3 = run_two_codenames(rep, random.Random(rep.seed + 1010), 60 if rep.tier == "quick" else 3000)
+    srows = run_struct(rep, random.Random(rep.seed + 2020), 3000 if rep.tier == "quick" else 60000)
+    sheader = STRUCT_HEADER + STRUCT_DEFS
+    mism, errors = C.run_mismatch_shards(rep.prop, "struct", sheader, "m_struct", "eq_struct",
+                                         [(a, b) for _, a, b in srows], shard=500)
+    C.tie_verdict(rep, "struct", mism, errors, [c for c, _, _ in srows], found or found2 or found3, header=sheader,
+                  fn="m_struct", coq_inputs=[a for _, a, _ in srows])
+    out = C.coq_show(sheader, "count_ok %s" % clist(a for _, a, _ in srows[:1500]), name="cases_C10_struct_count")
+    import re as _re
+    m = _re.search(r"=\s*(\d+)", out)
+    rep.count("struct.names_ok_cases_in_first_1500", int(m.group(1)) if m else -1)
     C.proof_verdict(rep, found or found2 or found3)
 
 
